@@ -132,6 +132,80 @@ def midpoint_cases(q, p, wbits, want=6):
     return res
 
 
+def decimal_near_cases(q, p, ndigits, want=4):
+    """closest approaches / ties for w with exactly `ndigits` decimal digits (the short inputs a shortest or
+    fixed-precision rendering produces), normal range"""
+    res = []
+    wlo, whi = 10 ** (ndigits - 1), 10 ** ndigits
+    if q >= 0:
+        P = 5 ** q
+        for L in range((wlo * P).bit_length(), (whi * P).bit_length() + 1):
+            k = L - p
+            if k <= 0:
+                continue
+            M = 1 << k
+            target = 1 << (k - 1)
+            lo = max(wlo, -((-(1 << (L - 1))) // P))
+            hi = min(whi, -((-(1 << L)) // P))
+            if lo >= hi:
+                continue
+            scale = max(1, M // (hi - lo))
+            for dist, w in cvp_candidates(P, M, target, lo, hi, scale)[:want]:
+                res.append((w, 'tie' if dist == 0 else 'near'))
+    else:
+        P = 5 ** (-q)
+        M = 2 * P
+        for s in range((p + 1) + P.bit_length() - whi.bit_length() - 1, (p + 1) + P.bit_length() - wlo.bit_length() + 2):
+            if s < 0:
+                continue
+            # only w for which floor(w * 2^s / P) has p + 1 bits belong to this s
+            lo = max(wlo, -((-(P << p)) >> s))
+            hi = min(whi, -((-(P << (p + 1))) >> s))
+            if lo >= hi:
+                continue
+            A = pow(2, s, M)
+            scale = max(1, M // (hi - lo))
+            for dist, w in cvp_candidates(A, M, P, lo, hi, scale)[:want]:
+                res.append((w, 'tie' if dist == 0 else 'near'))
+    return res
+
+
+def subnormal_near_cases(q, emin_ulp, min_normal_exp, wlo, whi, want=4, scan=40000):
+    """closest approaches to the midpoints (2k+1) * 2^(emin_ulp-1) of the subnormal range (fixed spacing):
+    w ~ (2k+1) * 2^(emin_ulp-1) / 10^q, scanned over a fixed progression of k (exact integer arithmetic)."""
+    if q >= 0:
+        return []
+    num = 10 ** (-q)                 # w = (2k+1) * num / den
+    den = 1 << (-(emin_ulp - 1))
+    # k range such that w in [wlo, whi) and the value stays below the smallest normal
+    kmax_sub = (1 << (min_normal_exp - emin_ulp)) - 1          # 2k+1 < 2^(p) : subnormal midpoints only
+    klo = max(0, (wlo * den // num - 1) // 2)
+    khi = min(kmax_sub, (whi * den // num - 1) // 2)
+    if klo >= khi:
+        return []
+    span = khi - klo
+    step = max(1, span // scan)
+    best = []
+    k = klo
+    while k < khi:
+        t = (2 * k + 1) * num
+        w = (t + den // 2) // den
+        if wlo <= w < whi:
+            err = abs(w * den - t)
+            best.append((err, w))
+        k += step
+    best.sort()
+    out = []
+    for err, w in best[:want]:
+        out.append((w, 'tie' if err == 0 else 'near'))
+    # and the nearest w on the other side of each of those midpoints
+    for err, w in best[:want]:
+        for dw in (-1, 1):
+            if wlo <= w + dw < whi:
+                out.append((w + dw, 'near'))
+    return out
+
+
 def patterns(mb):
     mx = (1 << mb) - 1
     p = set()
@@ -292,6 +366,19 @@ def main():
                         continue
                     seen.add(w)
                     lines.append(f"{fmt} {q} {w} {kind}")
+            # short significands (what renderings with 15..17 / 7..9 digits look like)
+            for nd in ((15, 16, 17) if p == 53 else (7, 8, 9)):
+                for w, kind in decimal_near_cases(q, p, nd):
+                    if w not in seen and 0 < w < M64:
+                        seen.add(w)
+                        lines.append(f"{fmt} {q} {w} {kind}")
+            # subnormal range: midpoints have a fixed spacing there
+            min_normal_exp = -1022 if p == 53 else -126
+            for (ra, rb) in ((1 << 63, 1 << 64), (10 ** 18, 10 ** 19)) + tuple((10 ** (nd - 1), 10 ** nd) for nd in ((15, 16, 17) if p == 53 else (7, 8, 9))):
+                for w, kind in subnormal_near_cases(q, emin_ulp, min_normal_exp, ra, rb):
+                    if w not in seen and 0 < w < M64:
+                        seen.add(w)
+                        lines.append(f"{fmt} {q} {w} {kind}")
             for w in straddle_cases(q, p, emin_ulp, emax_e):
                 if w not in seen:
                     seen.add(w)
